@@ -78,6 +78,11 @@
 //   - "out" lists local variables (typically pointers the function mutates
 //     through, `rec.Queries++`) whose final value is returned after the
 //     declared results; they start as their zero value;
+//   - `for k, v := range m` over a map with translatable key and element
+//     types is goRange over an extra parameter `e<k>_<m>_entries : List (K × V)`
+//     — the entries in the order the run time happens to choose, so theorems
+//     hold for every order (as everywhere, an opaque call in a loop body has
+//     one result parameter for all iterations);
 //   - "range_body" translates, instead of the whole function, the body of its
 //     first `for k, v := range …` statement as a function of the loop
 //     variables (one iteration; `continue` ends it) — the way to state the
@@ -1303,10 +1308,17 @@ func (c *fctx) rangeLoop(x *ast.RangeStmt, rest []ast.Stmt) string {
 		fail("range with assignment to existing variables")
 	}
 	sl, ok := c.typeOf(x.X).Underlying().(*types.Slice)
-	if !ok || c.t.leanType(c.typeOf(x.X)) == "" {
+	mp, isMap := c.typeOf(x.X).Underlying().(*types.Map)
+	isMap = isMap && c.t.leanType(mp.Key()) != "" && c.t.leanType(mp.Elem()) != ""
+	if (!ok || c.t.leanType(c.typeOf(x.X)) == "") && !isMap {
 		fail("range over %s", c.typeOf(x.X))
 	}
-	elT := c.t.leanType(sl.Elem())
+	elT := ""
+	if isMap {
+		elT = "(" + c.t.leanType(mp.Key()) + " × " + c.t.leanType(mp.Elem()) + ")"
+	} else {
+		elT = c.t.leanType(sl.Elem())
+	}
 	// carried variables
 	var vars, varTypes []string
 	seen := map[string]bool{}
@@ -1379,7 +1391,30 @@ func (c *fctx) rangeLoop(x *ast.RangeStmt, rest []ast.Stmt) string {
 	if id, ok := x.Value.(*ast.Ident); ok && x.Value != nil {
 		val = leanIdent(id.Name)
 	}
-	coll := c.expr(x.X)
+	var coll ex
+	mapDestr := ""
+	if isMap {
+		if c.opaqueNodes == nil {
+			c.opaqueNodes = map[ast.Expr]string{}
+		}
+		name, seen := c.opaqueNodes[x.X]
+		if !seen {
+			c.nOpaque++
+			name = fmt.Sprintf("e%d_%s_entries", c.nOpaque, sanitize(lastName(c.show(x.X))))
+			c.opaque = append(c.opaque, fmt.Sprintf("(%s : (List %s))", name, elT))
+			c.opaqueNodes[x.X] = name
+		}
+		coll = ex{code: name}
+		if key != "_" {
+			mapDestr += "let " + key + " := kv.1\n"
+		}
+		if val != "_" {
+			mapDestr += "let " + val + " := kv.2\n"
+		}
+		key, val = "_", "kv"
+	} else {
+		coll = c.expr(x.X)
+	}
 	return c.withEx(coll, func(collCode string) string {
 		savedLoop, savedPartial := c.loop, c.partial
 		c.loop, c.partial = &loopCtx{state: vars}, false
@@ -1398,7 +1433,7 @@ func (c *fctx) rangeLoop(x *ast.RangeStmt, rest []ast.Stmt) string {
 		} else if len(vars) == 1 {
 			destr = "let " + vars[0] + " := st\n"
 		}
-		loop := fmt.Sprintf("%s (σ := %s) (ρ := %s) %s %s fun st (%s : Int) (%s : %s) =>\n%s", fn, sigma, rho, collCode, c.stateTuple(vars), key, val, elT, indent(destr+body))
+		loop := fmt.Sprintf("%s (σ := %s) (ρ := %s) %s %s fun st (%s : Int) (%s : %s) =>\n%s", fn, sigma, rho, collCode, c.stateTuple(vars), key, val, elT, indent(destr+mapDestr+body))
 		after := c.stmts(rest)
 		if bodyPartial {
 			return fmt.Sprintf("match %s with\n| none => none\n| some (.inr r) => «ret»r\n| some (.inl st) =>\n%s", loop, indent(destr+after))
